@@ -33,6 +33,13 @@ Resize(t, nc, nh, nw) ==
      [n |-> SumF([q \in (1..rc) \X (1..rh) \X (1..rw) |-> t[(c - 1) * rc + q[1]][(i - 1) * rh + q[2]][(j - 1) * rw + q[3]]]),
       d |-> rc * rh * rw]]]]
 
+\* ---- regrouping accessors ------------------------------------------------------------
+\* get_triple(outputs) is GetTriple of Tensor.tla: a vector is regrouped row-major into c x h x w (a rank-3 tensor is returned unchanged, whatever
+\* `outputs` says); quadruple_to_vec_triple splits a rank-4 tensor along its first axis; hadamard3d is the element-wise
+\* product times a scalar (here 1 / 2^k, so the product of small integers stays exact)
+SplitQuad(q) == [f \in 1..Len(q) |-> q[f]]
+Hadamard3d(a, b, k) == [c \in 1..Len(a) |-> [i \in 1..Len(a[1]) |-> [j \in 1..Len(a[1][1]) |-> [n |-> a[c][i][j] * b[c][i][j], d |-> R!Pow2(k)]]]]
+
 \* ---- dropout mask -----------------------------------------------------------------
 RECURSIVE StatesFrom(_, _)
 StatesFrom(x, n) == IF n = 0 THEN <<>> ELSE LET y == R!NextState(x) IN <<y>> \o StatesFrom(y, n - 1)
